@@ -127,7 +127,11 @@ func (e *Engine) propertyRoots(id string) []*ssa.Function {
 	var out []*ssa.Function
 	seen := map[*ssa.Function]bool{}
 	for name, c := range e.byFn {
-		for _, p := range c.Props {
+		ps := append([]string{}, c.Props...)
+		for _, cl := range c.Ensures {
+			ps = append(ps, cl.Props...)
+		}
+		for _, p := range ps {
 			if p == id && !c.Trusted {
 				if f := e.allFuncs[name]; f != nil && !seen[f] {
 					seen[f] = true
@@ -223,6 +227,10 @@ func writeJSON(path string, v interface{}) {
 func (e *Engine) RunProperty(id, tier string, seed, timeout int) *CheckRun {
 	run := &CheckRun{Property: id, Tier: tier, Seed: seed, Trusted: map[string]string{}, byBackend: map[string]int{}}
 	work := e.propertyRoots(id)
+	isRoot := map[*ssa.Function]bool{}
+	for _, f := range work {
+		isRoot[f] = true
+	}
 	done := map[*ssa.Function]bool{}
 	var all []*Obligation
 	for len(work) > 0 {
@@ -233,6 +241,7 @@ func (e *Engine) RunProperty(id, tier string, seed, timeout int) *CheckRun {
 		}
 		done[fn] = true
 		rep := e.VerifyFunction(fn)
+		rep.isRoot = isRoot[fn]
 		run.Reports = append(run.Reports, rep)
 		all = append(all, rep.Obls...)
 		for _, failed := range rep.Failed {
@@ -309,8 +318,38 @@ func (e *Engine) RunProperty(id, tier string, seed, timeout int) *CheckRun {
 		}
 	}
 	sort.Strings(order)
+	// attribution: an obligation belongs to this property if its clause is tagged with it,
+	// or it is untagged and its function is tagged with it or has no tag at all (closure member)
+	relevant := func(rep *FuncReport, name string) bool {
+		if ps, ok := rep.ClauseProps[name]; ok {
+			for _, p := range ps {
+				if p == id {
+					return true
+				}
+			}
+			return false
+		}
+		if len(rep.FnProps) == 0 {
+			return true
+		}
+		for _, p := range rep.FnProps {
+			if p == id {
+				return true
+			}
+		}
+		// untagged clause of a function tagged only for other properties but reached through the closure
+		return !rep.isRoot
+	}
+	repOf := map[string]*FuncReport{}
+	for _, rep := range run.Reports {
+		repOf[rep.Fn] = rep
+	}
 	for _, n := range order {
-		run.Results = append(run.Results, byName[n])
+		r := byName[n]
+		if rep := repOf[r.Func]; rep != nil && !relevant(rep, n) {
+			continue
+		}
+		run.Results = append(run.Results, r)
 	}
 	return run
 }
